@@ -339,3 +339,45 @@ def r5(cx):
             cx.violation(ck, "one-announcement:%s" % chan, "%s: %s" % (b.sp(s), "; ".join(probs)), [b.sp(s)])
         else:
             cx.passed(ck, "one-announcement:%s" % chan, [b.sp(s)])
+
+
+SC_FN = "ingester::buffer::WriteBuffer::schema_compatible"
+
+
+@rule("C06", "R6", "one chunk, one schema: schema_compatible admits a batch only if its schema equals the first buffered batch's schema field for field INCLUDING nullability (whole Schema / "
+      "Fields / Field equality, or a field-wise comparison that consults is_nullable): flush_batches concatenates under the first batch's schema, and a null in a column that schema "
+      "declares non-nullable fails the concatenation after take() has already emptied the buffer")
+def r6(cx):
+    keys = cx.prog.sub_bodies(SC_FN)
+    if not cx.floor("bodies of schema_compatible", len(keys), 1, SC_FN):
+        return
+    whole, fieldwise, nullable, n_cmp = [], [], False, 0
+    for k in keys:
+        b = cx.body(k)
+        if b is None:
+            continue
+        for bi, t in b.calls():
+            cal = t["callee"]
+            if cal.endswith("Field::is_nullable"):
+                nullable = True
+            if re.search(r"PartialEq(<.*>)?( for .*)?>?::(eq|ne)$", cal) or cal.endswith("::eq") and "PartialEq" in cal:
+                n_cmp += 1
+                tys = " ".join(b.locals[a["pl"]["l"]]["ty"] for a in t["args"] if a.get("k") in ("move", "copy"))
+                org = set()
+                for a in t["args"]:
+                    org |= M.operand_origins(b, a, at=(bi, M.T))
+                srcs = {o[1][1] for o in org if o[0] == "call"}
+                if re.search(r"arrow_schema::(Schema|Fields|Field)\b", tys) and not re.search(r"DataType", tys):
+                    whole.append((k, bi))
+                elif any(s.endswith("RecordBatch::schema") for s in srcs) and re.search(r"Arc<arrow_schema::Schema>|SchemaRef", tys):
+                    whole.append((k, bi))
+                else:
+                    fieldwise.append((k, bi))
+    cx.floor("comparisons in schema_compatible", n_cmp, 1, SC_FN)
+    if whole or (fieldwise and nullable):
+        k, bi = (whole or fieldwise)[0]
+        cx.passed(SC_FN, "schema-equality-covers-nullability", [cx.body(k).sp(bi)], "whole-schema equality" if whole else "field-wise with is_nullable")
+    else:
+        sp = cx.body(fieldwise[0][0]).sp(fieldwise[0][1]) if fieldwise else SC_FN
+        cx.violation(SC_FN, "schema-equality-covers-nullability", "%s: schema_compatible no longer compares nullability: a batch with a null in a column the first buffered batch declares non-nullable is "
+                     "accepted, the flush's concatenation fails after take(), and every acknowledged row of that buffer is dropped" % sp, [sp])
